@@ -124,7 +124,7 @@ def run_history(story: dict, ops, browser=False, per_call_s=10, on_step=None):
                     elif kind == "redo":
                         obs = ("bool", eng.redo())
                     elif kind == "goto_valid":
-                        cands = [n for n in names if not story["passages"][n].get("params")]
+                        cands = [n for n in names if not story["passages"][n].get("params") and not n.startswith("H")]
                         conc = ("goto", cands[op[1] % len(cands)])
                         result = eng.goto(conc[1])
                         obs = ("ok",)
